@@ -150,6 +150,15 @@ theorem pEdit_step (id : Id) (k : Option Kind) (g : Staged → Option Err) (f : 
     repeat' split
     all_goals first | exact .same rfl h1 | exact .same rfl ⟨h1.1, h1.2.1, h1.2.2⟩
 
+theorem pMergeInto_step (a b : Id) (s : Store) (tx : Tx) : Step s tx (pMergeInto a b s tx) := by
+  unfold pMergeInto
+  split
+  · exact .same rfl (TxSame.rfl' _)
+  · rename_i tx1 x hl
+    have h1 := load_same hl
+    repeat' split
+    all_goals first | exact .same rfl h1 | exact .same rfl ⟨h1.1, h1.2.1, h1.2.2⟩
+
 theorem pAct_step (id : Id) (a : Act) (s : Store) (tx : Tx) : Step s tx (pAct id a s tx) := by
   unfold pAct
   split
@@ -274,6 +283,7 @@ theorem pres_pSetState (id : Id) (to : St) (x : Option St) : Pres (pSetState id 
 theorem pres_pRetract (id : Id) (x : Option Nat) : Pres (pRetract id x) := Pres.of_step (pRetract_step id x)
 theorem pres_pPurge (id : Id) (b : Bool) : Pres (pPurge id b) := Pres.of_step (pPurge_step id b)
 theorem pres_pAct (id : Id) (a : Act) : Pres (pAct id a) := Pres.of_step (pAct_step id a)
+theorem pres_pMergeInto (a b : Id) : Pres (pMergeInto a b) := Pres.of_step (pMergeInto_step a b)
 theorem pres_pCheck2 (a b : Id) (pred : Staged → Staged → Option Err) : Pres (pCheck2 a b pred) :=
   Pres.of_step (pCheck2_step a b pred)
 theorem pres_pExpectStatus (id : Id) (x : Option Nat) : Pres (pExpectStatus id x) := Pres.of_step (pExpectStatus_step id x)
@@ -303,6 +313,7 @@ macro "pres_chain" h:ident : tactic => `(tactic|
     | exact pres_pPurge _ _ _ _ _ _ _ _ $h
     | exact pres_pAssign _ _ _ _ _ _ _ _ $h
     | exact pres_pEdit _ _ _ _ _ _ _ _ _ _ _ _ $h
+    | exact pres_pMergeInto _ _ _ _ _ _ _ _ $h
     | exact pres_pCheck2 _ _ _ _ _ _ _ _ _ $h
     | exact pres_pExpectStatus _ _ _ _ _ _ _ _ $h
     | exact Pres.fail' _ _ _ _ _ _ _ $h
@@ -313,6 +324,7 @@ macro "pres_chain" h:ident : tactic => `(tactic|
     | exact pres_pStageNew _ _
     | exact pres_pAssign _ _
     | exact pres_pEdit _ _ _ _ _ _
+    | exact pres_pMergeInto _ _
     | exact pres_pCheck2 _ _ _
     | exact pres_pExpectStatus _ _
     | apply RInv.andThen'
